@@ -31,11 +31,15 @@ impl TableStrategy {
     }
     /// consumer-dependent comparison: class of `v` as seen by downstream `d` (key "d\u{1}v"), falling back to the
     /// class of the whole value
-    fn class_for<'a>(&'a self, d: &str, v: &'a str) -> &'a str {
-        match self.classes.get(&format!("{}\u{1}{}", d, v)) {
-            Some(c) => c,
-            None => self.class(v),
+    fn class_for<'a>(&'a self, u: &str, d: &str, v: &'a str) -> &'a str {
+        // (producer, consumer, value) -> (producer, whole output, value) -> the value's own class -> the value
+        if let Some(c) = self.classes.get(&format!("{}\u{2}{}\u{1}{}", u, d, v)) {
+            return c;
         }
+        if let Some(c) = self.classes.get(&format!("{}\u{2}!!!\u{1}{}", u, v)) {
+            return c;
+        }
+        self.class(v)
     }
 }
 
@@ -46,10 +50,10 @@ impl PPGEvaluatorStrategy for TableStrategy {
             _ => self.present.contains(query),
         }
     }
-    fn is_history_altered(&self, _u: &str, d: &str, last: &str, cur: &str) -> bool {
+    fn is_history_altered(&self, u: &str, d: &str, last: &str, cur: &str) -> bool {
         match self.mode {
             Mode::Ident => last != cur,
-            Mode::Rel => self.class_for(d, last) != self.class_for(d, cur),
+            Mode::Rel => self.class_for(u, d, last) != self.class_for(u, d, cur),
             Mode::Prod => {
                 if last == cur {
                     false
